@@ -97,7 +97,7 @@ def build_api(shapes):
         if s["next_page_token"] == "str": rs.field("next_page_token")
         elif s["next_page_token"] == "repeated_str": rs.field("next_page_token", repeated=True)
         elif s["next_page_token"]: rs.field("next_page_token", s["next_page_token"])
-        svc.method(s["name"], rq, rs)
+        svc.method(s["name"], rq, rs, http=("get", "/v1/lists/" + s["name"].lower()))     # every request field travels in the query over REST
     return [f2, f]
 
 
@@ -164,7 +164,7 @@ def item_id(kind, canon, codec):
 
 def run_api(ctx, r, shapes, label):
     files = build_api(shapes)
-    req = apigen.request(files, "transport=grpc,autogen-snippets=false")
+    req = apigen.request(files, "transport=grpc+rest,autogen-snippets=false")
     api, _ = genrun.build_api(req)
     svc = api.services[f"{PKG}.Library"]
     loc = rpc.py_locations(api, svc)
@@ -233,7 +233,17 @@ def run_api(ctx, r, shapes, label):
                 calls.append(c)
             sessions.append({"op": "grpc_session", "client": loc["async_client" if asy else "client"],
                              "transport": loc["grpc_asyncio" if asy else "grpc"], "async": asy, "calls": calls})
+        # the same listings through the REST transport (sync client): pages are JSON bodies, tokens travel in the query
+        rest_calls = []
+        for (s, m, kind, hist, reqd, call) in plans:
+            c = {k: v for k, v in call.items() if k not in ("script", "again_same_args")}
+            c["method"] = gu.to_snake_case(m.client_method_name)
+            c["script"] = [{"status": 200, "body": json.dumps(page_json(s, p, "results0", kind))} for p in hist]
+            rest_calls.append(c)
+        sessions.append({"op": "rest_session", "client": loc["client"], "transport": loc["rest"], "calls": rest_calls})
         out = libhost.run(root, sessions, timeout=600)
+        rest_out = out[2] if len(out) > 2 else None
+        out = out[:2]
         mops = [{"op": "c07.run", "token0": reqd.get("page_token", ""),
                  "pages": [{"items": [i if isinstance(i, int) else 0 for i in p["ids"]], "token": p["token"]} for p in hist]}
                 for (s, m, kind, hist, reqd, call) in plans]
@@ -315,6 +325,49 @@ def run_api(ctx, r, shapes, label):
                         ctx.disagree("T3:c07.items", f"model {m_items} vs impl {g_items}", payload)
                 if mo["request_tokens"] != toks:
                     ctx.disagree("T3:c07.tokens", f"model {mo['request_tokens']} vs impl {toks}", payload)
+        # ---- REST: items, call count, tokens and the other request fields, against the statement
+        if rest_out is not None:
+            import urllib.parse
+            if "calls" not in rest_out:
+                ctx.fail("session-failed", f"T3 session failed (rest): {str(rest_out)[-400:]}", {"shapes": shapes})
+            else:
+                for (s, m, kind, hist, reqd, call), res_ in zip(plans, rest_out["calls"]):
+                    payload = {"shape": s, "history": hist, "request": reqd, "async": False, "transport": "rest"}
+                    ctx.count("transport", "rest")
+                    if "ok" not in res_:
+                        ctx.fail("pager-raised", f"{m.name} (rest): {res_.get('raised')}: {res_.get('msg')}", payload)
+                        continue
+                    live = []
+                    for p in hist:
+                        live.append(p)
+                        if not p["token"]:
+                            break
+                    want_ids = [i for p in live for i in p["ids"]]
+                    got = [item_id(kind, it, codec) for it in res_["ok"]["items"]]
+                    if kind == "enum":
+                        ok_items = [{1: "RED", 2: "BLUE"}.get(g, g) for g in got] == [["RED", "BLUE"][i % 2] for i in want_ids]
+                    elif kind == "map":
+                        ok_items = sorted(got) == sorted(want_ids)
+                    else:
+                        ok_items = got == want_ids
+                    if not ok_items:
+                        ctx.fail("items", f"{m.name} (rest): yielded {got} expected {want_ids}", payload)
+                    srv = res_["server"]
+                    if len(srv) != len(live):
+                        ctx.fail("call-count", f"{m.name} (rest): {len(srv)} server calls for {len(live)} pages", payload)
+                    toks = []
+                    for k, rec in enumerate(srv):
+                        q = {kk: vv[-1] for kk, vv in urllib.parse.parse_qs(rec["query"], keep_blank_values=True).items()}
+                        toks.append(q.get("pageToken", q.get("page_token", "")))
+                        rest_fields = {kk: vv for kk, vv in q.items() if kk not in ("pageToken", "page_token", "$alt")}
+                        want_rest = {apigen.json_name(kk): vv for kk, vv in reqd.items() if kk != "page_token"}
+                        if rest_fields != want_rest:
+                            ctx.fail("request-fields-changed", f"{m.name} (rest): request {k} carries {rest_fields}, caller gave {want_rest}", payload)
+                        if dict((a.lower(), b) for a, b in rec["headers"]).get("x-verif") != "1":
+                            ctx.fail("call-options-changed", f"{m.name} (rest): request {k} lost caller metadata", payload)
+                    want_toks = [reqd.get("page_token", "")] + [p["token"] for p in live[:-1]]
+                    if toks != want_toks:
+                        ctx.fail("tokens", f"{m.name} (rest): tokens sent {toks} expected {want_toks}", payload)
     finally:
         genrun.cleanup(root)
 
